@@ -88,7 +88,7 @@ fn main() {
         // neighbourhood, edge squares over-represented): the first action is forced, then two more
         let mut forced: Option<Action> = None;
         let (c, gold, pol, maxlen) = if round % 2 == 0 {
-            match focus_position(&mut rng, (round / 2) % 2) {
+            match if (round / 2) % 3 == 2 { wrap_position(&mut rng) } else { focus_position(&mut rng, (round / 2) % 3) } {
                 Some((c, g, sq, d)) => {
                     forced = Some(Action::Move(Square::from_index(sq as u8), d));
                     (c, g, Policy::Contact, 3)
